@@ -30,7 +30,11 @@ package model
 
 // Encode$1 is the body of `for split := range bpe.split(frag.value)`.
 //@ func (BytePairEncoding).Encode$1
+//@   requires jump$1 == 0   -- range-over-func protocol: the loop has not exited (compiler-generated guard)
 //@   assert-at call WriteRune #1 : 0 <= b && b <= 255 && r == gpt2enc(b)
+// every id appended to the output is a non-negative result of vocab.Encode, hence an index into Values
+//@   assert-at call append #1 : 0 <= id && id < len(bpe.vocab.Values)
+//@   assert-at call append #3 : 0 <= id && id < len(bpe.vocab.Values)
 
 // Decode: a rune that is the table image of byte b makes exactly b the written byte
 // (b == 0 never reaches WriteByte: rune 0x100 is skipped, the property excludes NUL).
